@@ -3,7 +3,7 @@
    (lexer -> token stream -> parser -> transforms), proofs in proofs/RejectExamples.v. *)
 From Coq Require Import List NArith Bool Arith.
 Import ListNotations.
-From PV Require Import Regex Base LexTables NodeModel ParserBase ParserDecl ParserMain Api RejectExamples UnicodeTables PyRepr Lexer RejectProofs ConsumeProofs ConsumeTheorem.
+From PV Require Import Regex Base LexTables NodeModel ParserBase ParserDecl ParserMain Api RejectExamples UnicodeTables PyRepr Lexer RejectProofs ConsumeProofs ConsumeTheorem StrayProofs.
 
 (* a stray '@' is rejected at its own position *)
 Theorem C18_stray_at :
@@ -72,3 +72,12 @@ Theorem C18_illegal_char_reported : forall n0 st c rest,
      mkLex (l_pos st + 1)%N (l_line_start st) (l_lineno st) (l_file st), rest).
 Proof. exact illegal_char_reported. Qed.
 Print Assumptions C18_illegal_char_reported.
+
+(* '@', '`' and '\' can never start a token: wherever the lexer model stands in front of one of them
+   (any state, any following text) it emits error items only - every rule of the regenerated table whose words
+   can start with such a character is an error rule, and no fixed token starts with one.  With
+   C18_parse_ok_no_lexer_error: such a text is rejected. *)
+Theorem C18_stray_char_is_reported : forall n0 st c rest, In c STRAY ->
+  let items := fst (fst (lex_iter n0 st (c :: rest))) in items <> [] /\ forallb is_err items = true.
+Proof. exact stray_char_is_reported. Qed.
+Print Assumptions C18_stray_char_is_reported.
